@@ -69,6 +69,7 @@ func c07Scripts(rng *lab.RNG) []c07Script {
 	// an insert applied so late that the sweep frontier has passed its bucket, then re-written without / with a later
 	// TTL: the re-written item must not be hidden by whatever the index still holds for the old expiration
 	out = append(out, c07Script{Name: "late-apply-then-none", Late: 2300, Steps: append(append(set(0, 50), set(2400, 0)...), c07Obs(2450, 3500, 4600, 5700)...)})
+	out = append(out, c07Script{Name: "late-apply-then-short", Late: 2300, Steps: append(append(set(0, 50), set(2400, 900)...), append(c07Obs(2450, 2700, 3000, 3150, 3250), c07Obs(3400+j(), 4600)...)...)})
 	out = append(out, c07Script{Name: "late-apply-then-later", Late: 2300, Steps: append(append(set(0, 50), set(2400, 3000)...), append(c07Obs(2450, 3500, 4600), c07Obs(5500+j(), 6600)...)...)})
 	for _, hold := range []int{80, 400, 1300} {
 		out = append(out, c07Script{Name: fmt.Sprintf("late-apply-hold%d", hold), Late: hold, Steps: append(set(0, 50), c07Obs(hold+10, hold+20, hold+30)...)})
